@@ -22,6 +22,11 @@ pub struct EncJob {
     pub chunks: Vec<u32>,
     /// the drain accepts at most this many bytes per write (0 = everything): short writes behind write_all
     pub drain_piece: u32,
+    /// cut points (per mille of the content length): when non-empty the content is ONE source that reports "end of
+    /// input" (Ok(0)) at each cut and then carries on, and compress() is called once per segment WITHOUT set_source in
+    /// between (a source refilled in place, e.g. `Take` with a new limit); every segment must come out as its own frame
+    #[serde(default)]
+    pub cuts_pm: Vec<u16>,
 }
 
 #[derive(Clone, Debug, Serialize, Deserialize)]
@@ -31,7 +36,13 @@ pub struct C02Plan {
 
 pub struct C02;
 
+fn out_job_index(jobs: &[EncJob], j: &EncJob) -> usize {
+    jobs.iter().position(|x| std::ptr::eq(x, j)).unwrap_or(0)
+}
+
 pub struct Produced {
+    /// index of the job this frame came from
+    pub job: usize,
     pub input: Vec<u8>,
     pub output: Result<Vec<u8>, String>,
     pub short_reads: u64,
@@ -50,23 +61,37 @@ pub fn run_jobs(jobs: &[EncJob]) -> Vec<Produced> {
             comp = FrameCompressor::new(CompressionLevel::Fastest);
             broken = false;
         }
-        let script = SourceScript { chunks: j.chunks.clone(), eof_at: None, faults: vec![] };
+        // segment boundaries inside this job's content
+        let mut cuts: Vec<usize> = j.cuts_pm.iter().map(|c| (input.len() as u64 * (*c).min(1000) as u64 / 1000) as usize).collect();
+        cuts.sort_unstable();
+        cuts.dedup();
+        let mut bounds = vec![0usize];
+        bounds.extend(cuts.iter().copied());
+        bounds.push(input.len());
+        let script = SourceScript { chunks: j.chunks.clone(), eof_at: None, faults: vec![], pauses: cuts.iter().map(|c| *c as u64).collect() };
         let sink_script = SinkScript { steps: if j.drain_piece == 0 { vec![] } else { vec![SinkStep::AtMost(j.drain_piece)] }, piece: 0, budget: None };
         comp.set_compression_level(if j.fastest { CompressionLevel::Fastest } else { CompressionLevel::Uncompressed });
         comp.set_source(SimReader::new(input, &script));
-        comp.set_drain(SimSink::new(&sink_script));
-        let r = crate::driver::guarded(|| comp.compress());
-        let short_reads = comp.source().map(|s| s.stats.short_reads).unwrap_or(0);
-        let sink = comp.take_drain();
-        let partial = sink.as_ref().map(|s| s.stats.partial).unwrap_or(0);
-        let output = match r {
-            Ok(()) => Ok(sink.map(|s| s.accepted).unwrap_or_default()),
-            Err(p) => {
-                broken = true;
-                Err(p)
+        let mut short_before = 0;
+        for w in bounds.windows(2) {
+            comp.set_drain(SimSink::new(&sink_script));
+            let r = crate::driver::guarded(|| comp.compress());
+            let short_now = comp.source().map(|s| s.stats.short_reads).unwrap_or(0);
+            let sink = comp.take_drain();
+            let partial = sink.as_ref().map(|s| s.stats.partial).unwrap_or(0);
+            let output = match r {
+                Ok(()) => Ok(sink.map(|s| s.accepted).unwrap_or_default()),
+                Err(p) => {
+                    broken = true;
+                    Err(p)
+                }
+            };
+            out.push(Produced { input: input[w[0]..w[1]].to_vec(), output, short_reads: short_now - short_before, partial_writes: partial, job: out_job_index(jobs, j) });
+            short_before = short_now;
+            if broken {
+                break;
             }
-        };
-        out.push(Produced { input: input.clone(), output, short_reads, partial_writes: partial });
+        }
     }
     out
 }
@@ -142,7 +167,7 @@ pub fn tunable_block(seed: u64, k: usize, n: usize) -> Content {
 
 /// compress [blk, blk]: (kind of block 0, kind of block 1, literals type of block 0, literals type of block 1)
 fn probe_pair(blk: &Content) -> (Option<BlockKind>, Option<BlockKind>, Option<u8>, Option<u8>) {
-    let job = EncJob { content: Content::Concat(vec![blk.clone(), blk.clone()]), fastest: true, chunks: vec![], drain_piece: 0 };
+    let job = EncJob { content: Content::Concat(vec![blk.clone(), blk.clone()]), fastest: true, chunks: vec![], drain_piece: 0, cuts_pm: vec![] };
     let p = run_jobs(std::slice::from_ref(&job));
     let Some(Ok(out)) = p.first().map(|x| x.output.as_ref()) else { return (None, None, None, None) };
     let Ok(info) = walker::walk(out) else { return (None, None, None, None) };
@@ -220,6 +245,39 @@ fn gen_job(r: &mut Rng, max_len: usize) -> EncJob {
             let len = *r.pick(&[B - 1, B, B + 1, 2 * B - 1, 2 * B, 2 * B + 1, 3 * B]);
             crate::content::gen_content_len(r, len)
         }
+        5 => {
+            // block k: a unit of just over 1024 near-uniform bytes tiled over a whole block (just over 1024 literals, for
+            // which a Huffman table does not pay off, everything else matches); block k+1: many literals over the same
+            // alphabet, for which it does. Entropy-table bookkeeping across "literals stored raw" and the next block.
+            let sym = *r.pick(&[200u16, 230, 250, 255]);
+            let seed = r.next_u64();
+            let first = r.urange(1025, 1200);
+            let unit = Content::Alphabet { symbols: sym, len: first, seed };
+            let mut parts = vec![Content::Tile { base: Box::new(unit), len: B }];
+            for _ in 0..r.urange(1, 2) {
+                parts.push(Content::Alphabet { symbols: sym, len: *r.pick(&[20_000usize, 90_000, B]), seed });
+            }
+            Content::Concat(parts)
+        }
+        4 => {
+            // blocks of the form H ++ H with H near-incompressible: the second half is one long match, so the block
+            // compresses although its (> 1024) literals do not; consecutive blocks share the byte distribution. This is
+            // where "literals fell back to raw but the block stayed compressed" and table reuse meet.
+            let half = *r.pick(&[B / 2, B / 2, 1100, 5000, 20_000]);
+            let n = r.urange(2, 4);
+            let sym = *r.pick(&[200u16, 230, 250, 255, 256]);
+            let mut parts = Vec::new();
+            for _ in 0..n {
+                let h = if r.chance(1, 2) { Content::Alphabet { symbols: sym, len: half, seed: r.next_u64() } } else { Content::Skewed { len: half, seed: r.next_u64(), skew: *r.pick(&[0u8, 40, 120, 190]) } };
+                parts.push(h.clone());
+                parts.push(h);
+                if half < B / 2 {
+                    // pad the block with compressible filler so that the next H ++ H starts a new block
+                    parts.push(Content::Const { byte: 7, len: B - 2 * half });
+                }
+            }
+            Content::Concat(parts)
+        }
         3 => {
             // literal size-format thresholds and > 16 symbol alphabets
             let len = *r.pick(&[1023usize, 1024, 1025, 1026, 16383, 16384, 16385, 5, 6, 7]);
@@ -238,6 +296,7 @@ fn gen_job(r: &mut Rng, max_len: usize) -> EncJob {
             _ => crate::driver::gen_chunks(r),
         },
         drain_piece: *r.pick(&[0u32, 0, 1, 3, 100, 4096, 131075]),
+        cuts_pm: if r.chance(1, 6) { (0..r.urange(1, 3)).map(|_| r.below(1001) as u16).collect() } else { vec![] },
     }
 }
 
@@ -250,7 +309,7 @@ pub fn gen_jobs(r: &mut Rng, tier: Tier, index: u64) -> Vec<EncJob> {
     if index % hunt_every == 3 {
         let blk = hunt_boundary_block(r, 60);
         let tail = gen_len(r, 2000);
-        return vec![EncJob { content: Content::Concat(vec![blk.clone(), blk, Content::Markov { len: tail, seed: 5 }]), fastest: true, chunks: vec![], drain_piece: 0 }];
+        return vec![EncJob { content: Content::Concat(vec![blk.clone(), blk, Content::Markov { len: tail, seed: 5 }]), fastest: true, chunks: vec![], drain_piece: 0, cuts_pm: vec![] }];
     }
     let n = r.urange(1, 6);
     let max_len = if r.chance(1, 6) { 3 * B + 10 } else { 40_000 };
@@ -276,7 +335,11 @@ pub fn exec_jobs(id: &str, jobs: &[EncJob], stats: &mut Stats, log: Option<&mut 
         if i > 0 {
             stats.inc("probe.frame_from_reused_compressor");
         }
-        stats.inc(if jobs[i].fastest { "level.fastest" } else { "level.uncompressed" });
+        let job = &jobs[p.job];
+        if !job.cuts_pm.is_empty() {
+            stats.inc("probe.frame_from_source_refilled_in_place");
+        }
+        stats.inc(if job.fastest { "level.fastest" } else { "level.uncompressed" });
         if p.input.is_empty() {
             stats.inc("probe.empty_input");
         }
@@ -304,7 +367,7 @@ pub fn exec_jobs(id: &str, jobs: &[EncJob], stats: &mut Stats, log: Option<&mut 
                         BlockKind::Reserved => {}
                     }
                 }
-                if jobs[i].fastest && info.blocks.len() >= 2 && info.blocks.windows(2).any(|w| w[0].kind == BlockKind::Raw && w[1].kind == BlockKind::Compressed) {
+                if job.fastest && info.blocks.len() >= 2 && info.blocks.windows(2).any(|w| w[0].kind == BlockKind::Raw && w[1].kind == BlockKind::Compressed) {
                     stats.inc("probe.compressed_block_after_raw_fallback");
                 }
                 stats.set_insert("frame_shapes", {
@@ -317,7 +380,7 @@ pub fn exec_jobs(id: &str, jobs: &[EncJob], stats: &mut Stats, log: Option<&mut 
                 });
             }
         }
-        let what = format!("frame {i} of {} ({} bytes, {})", produced.len(), p.input.len(), if jobs[i].fastest { "Fastest" } else { "Uncompressed" });
+        let what = format!("frame {i} of {} ({} bytes, {})", produced.len(), p.input.len(), if job.fastest { "Fastest" } else { "Uncompressed" });
         let jv = if trailer_only { judge_trailer(p) } else { judge_frame(id, &what, p) };
         lg.push(json!({"frame": i, "input_len": p.input.len(), "output_len": p.output.as_ref().map(|o| o.len()).ok(), "short_reads": p.short_reads, "short_writes": p.partial_writes, "violation": jv.as_ref().map(|v| v.class.clone())}));
         if jv.is_some() && v.is_none() {
@@ -347,6 +410,11 @@ pub fn shrink_jobs(jobs: &[EncJob]) -> Vec<Vec<EncJob>> {
         if jobs[i].drain_piece != 0 {
             let mut j = jobs.to_vec();
             j[i].drain_piece = 0;
+            out.push(j);
+        }
+        if !jobs[i].cuts_pm.is_empty() {
+            let mut j = jobs.to_vec();
+            j[i].cuts_pm.pop();
             out.push(j);
         }
         for c in jobs[i].content.shrunk() {
@@ -406,6 +474,7 @@ impl Engine for C02 {
             "fault.source_short_read",
             "fault.drain_short_write",
             "probe.frame_from_reused_compressor",
+            "probe.frame_from_source_refilled_in_place",
             "probe.empty_input",
             "probe.input_multiple_of_block_size",
             "level.fastest",
